@@ -1,31 +1,85 @@
-//! Miri slice of C01 (thorough tier): `./check` runs a few slices of the same seeded runs
-//! with the whole simulator under `cargo +nightly miri run` (all three builds, the no-alloc
-//! one with the crate's single `unsafe` block among them) and leaves a summary in
-//! $AISSIM_WORK/miri.json; this module folds it into the evidence and reports undefined
-//! behaviour as a violation.
+//! Miri slices (thorough tier): `./check` runs a few slices of seeded runs with the whole
+//! simulator under `cargo +nightly miri run` and leaves a summary in $AISSIM_WORK/miri-<id>.json;
+//! this module folds it into the evidence and relays what Miri found.
+//!  * C01: all three builds (the no-alloc one with the crate's single `unsafe` block among them)
+//!    on the first runs of the batch: undefined behaviour that does not show as a panic.
+//!  * C17: the concurrent shape (one OS thread per parser). Under Miri the thread interleaving is
+//!    a function of -Zmiri-seed (preemption at basic-block granularity), so a diverging result is
+//!    exactly replayable (`./check C17 --replay <file> --miri <k>`), and a data race on state
+//!    shared between parser instances is reported as undefined behaviour whatever the timing.
 
 use crate::json::{self, J};
 use crate::runner::{Args, EvidenceExtra};
 
 pub fn c01_miri(args: &Args) -> (EvidenceExtra, Vec<(String, String)>) {
+    miri_summary("C01", args)
+}
+
+pub fn miri_summary(prop: &str, args: &Args) -> (EvidenceExtra, Vec<(String, String)>) {
     let work = std::env::var("AISSIM_WORK").unwrap_or_else(|_| "/verif/target/work".into());
-    let path = format!("{}/miri.json", work);
+    let path = format!("{}/miri-{}.json", work, prop);
+    // the slice may still be running beside the native batch (C17): wait for its summary
+    let pending = format!("{}/miri-{}.pending", work, prop);
+    let t0 = std::time::Instant::now();
+    while std::path::Path::new(&pending).exists() && t0.elapsed().as_secs() < 1800 {
+        std::thread::sleep(std::time::Duration::from_millis(200));
+    }
     let mut violations = Vec::new();
     let item = match std::fs::read_to_string(&path).ok().and_then(|s| json::parse(&s).ok()) {
         Some(j) => {
+            let seed = j.get("seed").and_then(|v| v.as_str()).unwrap_or("?").to_string();
+            let logs = j.get("logs").and_then(|v| v.as_str()).unwrap_or("").to_string();
+            let procs = j.get("processes").and_then(|v| v.as_i64()).unwrap_or(0);
             let ub = j.get("undefined_behaviour_reports").and_then(|v| v.as_i64()).unwrap_or(0);
             if ub > 0 {
-                let seed = j.get("seed").and_then(|v| v.as_str()).unwrap_or("?").to_string();
+                // first line of Miri's report, from the first slice that has one
+                let mut what = String::new();
+                let mut slice = 0;
+                for k in 0..procs {
+                    let log = format!("{}/replays/{}-miri-seed{}-slice{}.log", crate::runner::verif_dir(), prop, seed, k);
+                    if let Ok(t) = std::fs::read_to_string(&log) {
+                        if let Some(l) = t.lines().find(|l| l.contains("Undefined Behavior")) {
+                            what = l.trim().chars().take(300).collect();
+                            slice = k;
+                            break;
+                        }
+                    }
+                }
+                let per = j.get("runs_per_process").and_then(|v| v.as_i64()).unwrap_or(1);
+                let sim_args = j.get("simulator_args").and_then(|v| v.as_str()).unwrap_or("").to_string();
                 violations.push((
-                    format!("{}/replays/C01-miri-seed{}-slice*.log", crate::runner::verif_dir(), seed),
-                    format!("clause=undefined-behaviour Miri reported undefined behaviour in {} slice(s); re-run: VERIF_SEED={} ./check C01 --tier thorough", ub, seed),
+                    format!("{}/replays/{}-miri-seed{}-slice{}.log", crate::runner::verif_dir(), prop, seed, slice),
+                    format!(
+                        "clause=undefined-behaviour site=miri Miri reported undefined behaviour in {} slice(s): {} — replays exactly with: ./check {} --seed {} --first-run {} --runs {} {} --miri {}",
+                        ub, what, prop, seed, slice * per, per, sim_args, slice
+                    ),
                 ));
+            }
+            // violations found by the simulator itself while it ran under Miri (C17: a result that
+            // diverges under Miri's schedule): relay them with the Miri seed that reproduces them
+            let nviol = j.get("slices_with_violation").and_then(|v| v.as_i64()).unwrap_or(0);
+            if nviol > 0 {
+                for k in 0..procs {
+                    let log = format!("{}/slice-{}.log", logs, k);
+                    if let Ok(t) = std::fs::read_to_string(&log) {
+                        let ls: Vec<&str> = t.lines().collect();
+                        for (i, l) in ls.iter().enumerate() {
+                            if let Some(rest) = l.strip_prefix(&format!("VIOLATION property={} replay=", prop)) {
+                                let detail = ls.get(i + 1).map(|s| s.trim()).unwrap_or("");
+                                violations.push((
+                                    rest.trim().to_string(),
+                                    format!("{} (found under Miri; replays exactly with: ./check {} --replay {} --miri {})", detail, prop, rest.trim(), k),
+                                ));
+                            }
+                        }
+                    }
+                }
             }
             j
         }
         None => J::obj().set("ran", J::Bool(false)).set(
             "reason",
-            J::Str(if args.tier == "thorough" {
+            J::Str(if args.tier == "thorough" || prop == "C17" {
                 "no Miri summary found".into()
             } else {
                 "Miri slice runs in the thorough tier only".into()
